@@ -53,6 +53,13 @@ def gen(seed, tier):
             nodes.append((rng.choice([0, 1, 7, 127, 128, 300, (1 << 32) - 1, rng.getrandbits(20)]),
                           [rng.randrange(n) for _ in range(deg)]))
         graphs.append((nodes, rng.randrange(n)))
+    # reference ids across the width boundaries of their var-int (128, 16384): wide shallow graphs whose late nodes
+    # point back at nodes on both sides of each boundary
+    for width in (130, 300):
+        nodes = [(1, list(range(1, width)))] + [(k % 7, []) for k in range(1, width)]
+        nodes[width - 1] = (9, [127, 128, 129, 0, width - 1])
+        nodes[5] = (3, [width - 2, 126])
+        graphs.append((nodes, 0))
     lines = []
     for k, (nodes, root) in enumerate(graphs):
         sfx = ["-", "00", "0102"][k % 3]
@@ -117,6 +124,16 @@ def check(rep, tier, seed):
         elif parts[2] != want_dec:
             bad.append((l, a, "graph inside an evolved record: shape or sharing lost"))
     rep.coverage["embedded_in_evolved_record"] = len(elines)
+    # the 16384 boundary, implementation only (the model's tables are lists): a star of 16500 leaves, late leaves
+    # pointing back across the boundary; judged against the independent reachability computation
+    W = 16500
+    big = [(1, list(range(1, W)))] + [(k % 5, []) for k in range(1, W)]
+    big[W - 1] = (9, [16382, 16383, 16384, 16385, 0])
+    big[16384] = (8, [16383, 127, 128])
+    bl = "g 0 " + " ".join(f"{l}:{','.join(map(str, es))}" for l, es in big) + " 00"
+    ba = C.run_sharded(harness, "graph", [bl], wd, "big")[0]
+    if ba.split(" ; ", 1)[-1] != f"ok 0 | {show(reachable_canon(big, 0))} | 1":
+        bad.append((bl[:200] + " ...", ba[:200], "a graph with more than 16384 objects loses shape or sharing"))
     # identity is the object, not its address: a struct and its first field are two objects
     al = C.run_sharded(harness, "graph", ["alias"], wd, "alias")[0]
     if al != "ok 00000102 new,new,ref,ref":
